@@ -49,6 +49,8 @@ pub enum E {
     Coalesce(Vec<E>),
     /// NOW() etc
     F0(String),
+    /// [NOT] EXISTS { basic graph pattern }
+    Exists(bool, Vec<TP>),
 }
 #[derive(Clone, Debug, Serialize, Deserialize)]
 pub enum El {
@@ -142,6 +144,12 @@ impl R {
             E::F2(f, a, b) => format!("{f}({}, {})", self.e(a), self.e(b)),
             E::If(c, a, b) => format!("IF({}, {}, {})", self.e(c), self.e(a), self.e(b)),
             E::Coalesce(v) => format!("COALESCE({})", v.iter().map(|x| self.e(x)).collect::<Vec<_>>().join(", ")),
+            E::Exists(neg, tps) => {
+                // blank node labels of the inner pattern get their own block number
+                let inner = R { block: 9000 + self.block * 10 + tps.len() };
+                let body: String = tps.iter().map(|tp| format!("{} {} {} . ", inner.t(&tp.s), inner.t(&tp.p), inner.t(&tp.o))).collect();
+                format!("{}EXISTS {{ {body}}}", if *neg { "NOT " } else { "" })
+            }
         }
     }
     fn g(&mut self, g: &G) -> String {
@@ -272,9 +280,13 @@ struct Flags {
     nested_project_drop: bool,
     /// COALESCE / IF skipped over an error
     coalesce_skip: bool,
+    /// an EXISTS / NOT EXISTS over a basic graph pattern was evaluated
+    exists: bool,
 }
 
 struct Ev {
+    /// active graph of the group whose FILTER / BIND expression is being evaluated (for EXISTS)
+    cur_active: Option<String>,
     default: Vec<Tr>,
     named: BTreeMap<String, Vec<Tr>>,
     flags: Flags,
@@ -578,6 +590,21 @@ impl Ev {
                     _ => Err(XErr::Uncertain("function-outside-subset")),
                 }
             }
+            X::Exists(p) => match p.as_ref() {
+                GraphPattern::Bgp { patterns } => {
+                    // crisp only for a basic graph pattern that does not mention a GRAPH variable in scope
+                    let mentions = |name: &str| format!("{patterns:?}").contains(&format!("name: \"{name}\""));
+                    if self.graph_vars.iter().any(|g| mentions(g)) {
+                        return Err(XErr::Uncertain("exists-mentions-graph-variable"));
+                    }
+                    let active = self.cur_active.clone();
+                    let sols = self.bgp(patterns, &active);
+                    let found = sols.iter().any(|s| s.iter().all(|(v, t)| mu.get(v).map(|x| x == t).unwrap_or(true)));
+                    self.flags.exists = true;
+                    Ok(bool_lit(found))
+                }
+                _ => Err(XErr::Uncertain("exists-over-non-bgp")),
+            },
             _ => Err(XErr::Uncertain("expression-outside-subset")),
         }
     }
@@ -663,6 +690,7 @@ impl Ev {
             GraphPattern::Filter { expr, inner } => {
                 let rows = self.eval(inner, active, false);
                 let mut out = vec![];
+                self.cur_active = active.clone();
                 for mu in rows {
                     match self.expr(expr, &mu).and_then(|t| self.ebv(&t)) {
                         Ok(true) => out.push(mu),
@@ -710,6 +738,7 @@ impl Ev {
             GraphPattern::Extend { inner, variable, expression } => {
                 let rows = self.eval(inner, active, false);
                 let mut out = vec![];
+                self.cur_active = active.clone();
                 for mut mu in rows {
                     if mu.contains_key(variable.as_str()) {
                         self.uncertain.get_or_insert("extend-of-bound-variable");
@@ -988,6 +1017,7 @@ fn bool_expr(depth: u32) -> BoxedStrategy<E> {
         3 => (pick_str(&["isIRI", "isBlank", "isLiteral"]), leaf()).prop_map(|(f, a)| E::F1(f, Box::new(a))),
         2 => (leaf(), leaf()).prop_map(|(a, b)| E::F2("sameTerm".into(), Box::new(a), Box::new(b))),
         2 => leaf(),
+        2 => (any::<bool>(), prop::collection::vec(tp(), 1..=2)).prop_map(|(n, tps)| E::Exists(n, tps)),
     ]
     .boxed();
     if depth == 0 {
@@ -1347,7 +1377,7 @@ impl Check for C13 {
             return;
         }
         // reference evaluation
-        let mut ev = Ev { default: vec![], named: BTreeMap::new(), flags: Flags::default(), graph_vars: vec![], uncertain: None };
+        let mut ev = Ev { cur_active: None, default: vec![], named: BTreeMap::new(), flags: Flags::default(), graph_vars: vec![], uncertain: None };
         match dataset {
             None => {
                 for q in &quads {
@@ -1397,6 +1427,7 @@ impl Check for C13 {
         let f = &ev.flags;
         for (on, name) in [
             (f.logic_rescue, "expr:error-operand-rescued-by-logic"),
+            (f.exists, "expr:exists-over-bgp"),
             (f.ebv_illtyped_numeric, "expr:ebv-of-ill-typed-numeric"),
             (f.if_cond_error, "expr:if-condition-error"),
             (f.graph_var_in_expr, "graph:var-read-in-inner-expression"),
